@@ -192,6 +192,10 @@ func relOf(shape string, s func(string) string) string {
 		return "github.com/" + s("owner") + "/" + s("repo") + "/" + s("rest") + "/f.go"
 	case "github3ver":
 		return "github.com/" + s("owner") + "/" + s("repo") + "@v1.2.3" + s("ver") + "/" + s("rest") + "/f.go"
+	case "github3verodd": // a version that does not start with 'v'
+		return "github.com/" + s("owner") + "/" + s("repo") + "@1.0" + s("ver") + "/" + s("rest") + "/f.go"
+	case "otherhostatdir": // a directory whose name ends in '@'
+		return "example.com/" + s("p") + "@/svc/svc.go"
 	case "github3pseudo":
 		return "github.com/" + s("owner") + "/" + s("repo") + "@v0.0.0-20200223170610-d5e6a3e2c0ae/" + s("rest") + "/f.go"
 	case "githubshort":
